@@ -3,7 +3,7 @@ use nom::{
     bytes::complete::{tag, take},
     character::complete::none_of,
     combinator::{all_consuming, map, not, peek},
-    error::{context, VerboseError},
+    error::{context, ErrorKind, ParseError, VerboseError},
     multi::many1,
     sequence::{delimited, preceded, tuple},
     IResult,
@@ -148,21 +148,37 @@ fn ref_string(input: &str) -> IResult<&str, String, VerboseError<&str>> {
     )(input)
 }
 
+/// Maximum nesting depth of references which the parser accepts. The parser recurses once per
+/// nesting level, so that unbounded nesting would overflow the stack. References which are
+/// nested deeper than the reference resolution depth limit can't be resolved anyway.
+const MAX_REF_NESTING: usize = 128;
+
 /// Parses the contents of a reference, taking into account that there may be nested references
-fn ref_item(input: &str) -> IResult<&str, Token, VerboseError<&str>> {
+fn ref_item(input: &str, depth: usize) -> IResult<&str, Token, VerboseError<&str>> {
     context(
         "ref_item",
-        alt((reference, map(ref_string, Token::Literal))),
+        alt((
+            |i| reference(i, depth),
+            map(ref_string, Token::Literal),
+        )),
     )(input)
 }
 
-/// Parses a single Reclass reference which may contain nested references
-fn reference(input: &str) -> IResult<&str, Token, VerboseError<&str>> {
+/// Parses a single Reclass reference which may contain nested references. Parameter `depth`
+/// is the number of references which enclose the reference.
+fn reference(input: &str, depth: usize) -> IResult<&str, Token, VerboseError<&str>> {
+    if depth > MAX_REF_NESTING {
+        return Err(nom::Err::Error(VerboseError::from_error_kind(
+            input,
+            ErrorKind::TooLarge,
+        )));
+    }
     context(
         "reference",
-        map(delimited(ref_open, many1(ref_item), ref_close), |tokens| {
-            Token::Ref(coalesce_literals(tokens))
-        }),
+        map(
+            delimited(ref_open, many1(|i| ref_item(i, depth + 1)), ref_close),
+            |tokens| Token::Ref(coalesce_literals(tokens)),
+        ),
     )(input)
 }
 
@@ -195,7 +211,10 @@ fn string(input: &str) -> IResult<&str, String, VerboseError<&str>> {
 
 /// Parses either a Reclass reference or a section of the input with no references
 fn item(input: &str) -> IResult<&str, Token, VerboseError<&str>> {
-    context("item", alt((reference, map(string, Token::Literal))))(input)
+    context(
+        "item",
+        alt((|i| reference(i, 0), map(string, Token::Literal))),
+    )(input)
 }
 
 /// Parses a string containing zero or more Reclass references
